@@ -10,11 +10,20 @@ unsigned nondet_unsigned();
 uint32_t w_round(uint32_t height, uint32_t rounds, uint32_t ksround, int* first, int* ksr) {
   DefaultPopRewardsCalculator c;
   c.tree_.params.ki = KI;
-  c.tree_.params.pp.rounds = rounds; c.tree_.params.pp.ksround = ksround; c.tree_.params.pp.flatround = 0; c.tree_.params.pp.useflat = false;
+  c.tree_.params.pp.rounds = rounds; c.tree_.params.pp.ksround = ksround; c.tree_.params.pp.flatround = 0; c.tree_.params.pp.useflat = false; c.tree_.params.pp.tablen = 0;
   uint32_t r = c.getRoundForBlockNumber(height);
   *first = isFirstRoundAfterKeystone(c.tree_.params, height);
   *ksr = isKeystoneRound(c.tree_.params.pp, r);
   return r;
 }
+// which table entry pays an endorsement published relativeBlock blocks after the best one: index, or -1 for the constant 0.0
+int w_multiplier(int relativeBlock, size_t tablen) {
+  DefaultPopRewardsCalculator c;
+  c.tree_.params.ki = KI;
+  c.tree_.params.pp.rounds = 4; c.tree_.params.pp.ksround = 3; c.tree_.params.pp.flatround = 0; c.tree_.params.pp.useflat = false;
+  c.tree_.params.pp.tablen = tablen;
+  return c.getScoreMultiplierFromRelativeBlock(relativeBlock).idx;
+}
+void h_multiplier() { w_multiplier((int)nondet_unsigned(), (size_t)nondet_unsigned()); REACH; }
 void h_round() { int a, b; w_round(nondet_unsigned(), nondet_unsigned(), nondet_unsigned(), &a, &b); REACH; }
 }
